@@ -37,12 +37,13 @@ fn run_history(h: &Hist, st: &mut Stats) -> Result<(), String> {
     // every other history carries an explicit Host header as well (then the library has nothing to amend)
     // on the Flow API the body state is also reached through Await100 (interim 100 seen or not) and on a bodiless method whose
     // Content-Length was added with Flow::header() before / after send_body_despite_method()
-    let variant = (h.ops.len() + (h.n % 7) as usize) % 8;
+    let variant = (h.ops.len() + (h.n % 7) as usize) % 9;
     let kind = match (h.api, variant) {
         (Api::Flow, 2) => Kind::SizedViaAwait100(h.n, true),
         (Api::Flow, 3) => Kind::SizedViaAwait100(h.n, false),
         (Api::Flow, 4) => Kind::DespiteSized(h.n, true),
         (Api::Flow, 5) => Kind::DespiteSized(h.n, false),
+        (Api::Flow, 8) => Kind::SizedExtraHeadWrites(h.n),
         (_, v) if v % 2 == 0 => Kind::Sized(h.n),
         _ => Kind::SizedAndHost(h.n),
     };
